@@ -252,6 +252,11 @@ Goods0(kind) ==
           ModeGoods(PresentLeaves, SchWith) \cup
           {G("format_" \o f, With(TString, << <<"format", S(f)>> >>)) : f \in KnownFormats("string") \ {"date"}} \cup
           {G("empty", EmptyO),
+           \* schemas that say nothing about the value: annotations only
+           G("texts", OO(<< <<"title", S("t")>>, <<sDescr, S("d")>> >>)),
+           G("example_only", OO(<< <<"example", N(1)>> >>)),
+           G("default_only", OO(<< <<"default", S("x")>> >>)),
+           G("deprecated_only", OO(<< <<"deprecated", B(TRUE)>> >>)),
            G("array", OO(<< <<"type", S("array")>>, <<"items", TString>> >>)),
            G("object", With(TObjectP, << <<"required", A(<<S("p")>>)>>, <<"additionalProperties", B(FALSE)>> >>)),
            G("pattern", With(TString, << <<"pattern", S(Join(cPatOk))>> >>)),
@@ -471,7 +476,17 @@ Bads0(kind) ==
            Bd("flow_scopes_missing", "absent", Drop(Min(kind), {"scopes"}))}
      [] OTHER -> {}
 
-LeafTab == [k \in Kinds |-> Goods0(k) \cup Bads0(k)]
+(* the extra-field rule on every conforming variant of a kind, not only on the minimal one: whatever else an object *)
+(* says or does not say, a field that is neither one of its fixed fields nor an x- extension is a violation.       *)
+(* Variants that are only conforming in a particular place (ContextVars) are left out.                           *)
+ModeVars == {m.bad : m \in ModeLeaves \cup MapLeaves} \cup {m.ok : m \in ModeLeaves \cup MapLeaves}
+ContextVars == ModeVars \cup PathOnlyVars \cup SelfRefVars
+ExtraOn(kind) ==
+   IF kind \in FixedKinds
+   THEN {BdC("extra_field", "bogus_on_" \o g.var, With(g.obj, << <<sBogus, N(1)>> >>), g.comps)
+           : g \in {x \in Goods0(kind) : x.var \notin ContextVars \cup {"min"}}}
+   ELSE {}
+LeafTab == [k \in Kinds |-> Goods0(k) \cup Bads0(k) \cup ExtraOn(k)]
 Goods(kind) == {x \in LeafTab[kind] : x.rule = "none"}
 Bads(kind) == {x \in LeafTab[kind] : x.rule # "none"}
 
